@@ -29,7 +29,9 @@ EXPLANATION = (
     'consecutive mutations on one model; '
     'R-C18.2 both ops pass one and the same mergeability predicate; R-C18.5 (as rewritten) with a last mutator present and equal model names no path reaches ModelMutator(...); R-C18.6 every op the run mutations queue is mergeable.'
     ' '
-    "R-C18.6 second clause: ModelMutator.add_sql stores the caller's mergeable flag unchanged.")
+    "R-C18.6 second clause: ModelMutator.add_sql stores the caller's mergeable flag unchanged."
+    ' '
+    'R-C18.7 _get_field_type_change reports a type change only after comparing the field classes.')
 NOT_DECIDED = (
     'Rebuild counts for all sequences (needs execution and counting on the '
     'statement trace).')
@@ -475,7 +477,55 @@ def r6_run_mutations_queue_mergeable_ops(ctx):
     ctx.floor('ModelMutator queueing calls in the run mutations', n, 5)
 
 
+def r7_same_class_is_not_a_type_change(ctx):
+    """ChangeField decides "type change" (a non-mergeable change_column_type
+    op with a rebuild of its own) by comparing db_type() of the old field
+    with a field built from the mutation's attributes - and max_length /
+    max_digits are part of db_type.  A ChangeField that restates the field's
+    current class must therefore be excluded *before* that comparison:
+    every path to a `return True, ...` of _get_field_type_change passes the
+    false edge of a comparison of old_field_sig.field_type with
+    self.field_type."""
+    ctx.rule('R-C18.7')
+    p = ctx.program
+    f = p.func('mutations.change_field', 'ChangeField._get_field_type_change')
+    g = ctx.cfg(f)
+    pos = [n for n in g.nodes if n.kind == 'stmt' and
+           isinstance(n.ast, ast.Return) and
+           isinstance(n.ast.value, ast.Tuple) and n.ast.value.elts and
+           isinstance(n.ast.value.elts[0], ast.Constant) and
+           n.ast.value.elts[0].value is True]
+    ctx.floor('positive returns of _get_field_type_change', len(pos), 1)
+    same = []
+    for t in g.nodes:
+        if t.kind not in ('test', 'operand') or \
+                not isinstance(t.ast, ast.Compare) or len(t.ast.ops) != 1:
+            continue
+        txt = [unparse(t.ast.left), unparse(t.ast.comparators[0])]
+        if any(x.endswith('field_sig.field_type') or
+               x == 'old_field_sig.field_type' for x in txt) and \
+                any(x == 'self.field_type' for x in txt):
+            op = t.ast.ops[0]
+            if isinstance(op, (ast.Is, ast.Eq)):
+                same.append((t, 'F'))     # different class on the F edge
+            elif isinstance(op, (ast.IsNot, ast.NotEq)):
+                same.append((t, 'T'))
+    for r in pos:
+        if any(g.guarded_by(r, t, lab) for t, lab in same):
+            ctx.ok(f, 'a type change is only reported for a different field '
+                   'class', r.ast)
+        else:
+            ctx.finding(f, r.ast, '_get_field_type_change can report a type '
+                        'change without having compared the field classes: '
+                        'ChangeField(field_type=<current class>, '
+                        'max_length=...) differs in db_type() and is queued '
+                        'as a non-mergeable change_column_type, so the table '
+                        'is rebuilt before, for and after it',
+                        key='same-class-type-change')
+
+
 def run(ctx):
+    r7_same_class_is_not_a_type_change(ctx)
     r6_run_mutations_queue_mergeable_ops(ctx)
     r1_mergeable_table(ctx)
     r2_merge_reuses_result(ctx)
